@@ -316,6 +316,9 @@ fn child() -> RunResult {
         End::Exit(c) => check!(st.code() == Some(c), "exit-status", "the child exited with code {c}, wait reported {st:?}"),
         End::Signal(s) => check!(st.signal() == Some(s), "exit-status", "the child was killed by signal {s}, wait reported {st:?}"),
     }
+    if exit_commanded_ns.get() == u64::MAX {
+        simcore::violation!("status-before-exit", "wait returned the status {st:?} although the child was never told to end");
+    }
     check!(*at_ns >= exit_commanded_ns.get(), "status-before-exit", "wait returned a status {} ns before the child was told to end", exit_commanded_ns.get().saturating_sub(*at_ns));
     check!(end_state.open_rings == 0, "ring-leak", "{} rings still open", end_state.open_rings);
     Ok(())
